@@ -12,18 +12,6 @@ re-evaluation finds every kept call in the store (`C02`).
 namespace Dds
 open List
 
-/-! ## Shapes of interaction trees -/
-
-mutual
-def SameShape : FIS → FIS → Prop
-  | .mk _ s1 p1 subs1 _, .mk _ s2 p2 subs2 _ => s1 = s2 ∧ p1 = p2 ∧ SameShapeL subs1 subs2
-def SameShapeL : List FIS → List FIS → Prop
-  | [], [] => True
-  | a :: as, b :: bs => SameShape a b ∧ SameShapeL as bs
-  | [], _ :: _ => False
-  | _ :: _, [] => False
-end
-
 mutual
 def Covered (bl : List (Sg × RVal)) : FIS → Prop
   | .mk _ s p subs _ => (p ≠ none → (sgGet bl s).isSome = true) ∧ CoveredL bl subs
@@ -51,7 +39,7 @@ theorem Covered.shape {bl : List (Sg × RVal)} : ∀ (f g : FIS), SameShape f g 
   | .mk _ s1 p1 subs1 _, .mk _ s2 p2 subs2 _, hs, hc => by
     simp only [SameShape] at hs
     simp only [Covered] at hc ⊢
-    obtain ⟨rfl, rfl, h3⟩ := hs
+    obtain ⟨rfl, rfl, _, h3⟩ := hs
     exact ⟨hc.1, CoveredL.shape subs1 subs2 h3 hc.2⟩
 theorem CoveredL.shape {bl : List (Sg × RVal)} : ∀ (fs gs : List FIS), SameShapeL fs gs → CoveredL bl fs → CoveredL bl gs
   | [], [], _, _ => trivial
@@ -68,114 +56,6 @@ theorem CoveredL.append {bl : List (Sg × RVal)} : ∀ (fs gs : List FIS), Cover
   | f :: fs, gs, h1, h2 => by
     simp only [cons_append, CoveredL] at h1 ⊢
     exact ⟨h1.1, CoveredL.append fs gs h1.2 h2⟩
-
-theorem SameShapeL.append : ∀ (a b c d : List FIS), SameShapeL a b → SameShapeL c d → SameShapeL (a ++ c) (b ++ d)
-  | [], [], _, _, _, h => h
-  | x :: a, y :: b, c, d, h1, h2 => by
-    simp only [cons_append, SameShapeL] at h1 ⊢
-    exact ⟨h1.1, SameShapeL.append a b c d h1.2 h2⟩
-  | [], _ :: _, _, _, h, _ => by simp [SameShapeL] at h
-  | _ :: _, [], _, _, h, _ => by simp [SameShapeL] at h
-
-theorem SameShape.withPath (f g : FIS) (p : String) (h : SameShape f g) : SameShape (f.withPath p) (g.withPath p) := by
-  obtain ⟨n1, s1, p1, subs1, l1⟩ := f
-  obtain ⟨n2, s2, p2, subs2, l2⟩ := g
-  simp only [SameShape, FIS.withPath, FIS.retSig, FIS.subs] at h ⊢
-  exact ⟨h.1, trivial, h.2.2⟩
-
-/-- `SH fuel1`: two analysed calls with the same signature have interaction trees of the same shape -/
-def SH (U : Universe) (m : Nat) (fuel1 : Nat) : Prop :=
-  ∀ (fuel2 : Nat) (W1 W2 : World) (refs1 refs2 : Refs) (stack1 stack2 : List String) (fn1 fn2 : Fn)
-    (ctx1 ctx2 : ArgCtx) (fis1 fis2 : FIS) (r1 r2 : Refs),
-    U.world W1 → U.world W2 → U.fns fn1 → U.fns fn2 →
-    analyse m W1 fuel1 refs1 stack1 fn1 ctx1 = .ok (fis1, r1) →
-    analyse m W2 fuel2 refs2 stack2 fn2 ctx2 = .ok (fis2, r2) →
-    fis1.retSig = fis2.retSig → SameShape fis1 fis2
-
-theorem shape_callstep (U : Universe) {m : Nat} {fuel1 fuel2 : Nat} (hSH : SH U m fuel1) {W1 W2 : World}
-    (hW1 : U.world W1) (hW2 : U.world W2)
-    {fn1 fn2 : Fn} {isig1 isig2 : Sg} {stack1 stack2 : List String} {s1 s2 : VisitSt} {f : String}
-    {args : List AstArg} {kwargs : List (String × AstArg)} {line : Nat}
-    {g1 g2 : Fn} {c1 c2 : Option Sg} {n1 n2 : List (String × Option Sg)} {a b : FIS} {rf1 rf2 : Refs}
-    (hc1 : CallStep m W1 (analyse m W1 fuel1) fn1 isig1 stack1 s1 f args kwargs line g1 c1 n1 a rf1)
-    (hc2 : CallStep m W2 (analyse m W2 fuel2) fn2 isig2 stack2 s2 f args kwargs line g2 c2 n2 b rf2)
-    (hs : a.retSig = b.retSig) : SameShape a b :=
-  hSH fuel2 W1 W2 _ _ _ _ g1 g2 _ _ a b _ _ hW1 hW2 (U.find hW1 hc1.find) (U.find hW2 hc2.find) hc1.sub hc2.sub hs
-
-theorem lockstep_shape (U : Universe) {m : Nat} {fuel1 fuel2 : Nat} (hSH : SH U m fuel1) {W1 W2 : World}
-    (hW1 : U.world W1) (hW2 : U.world W2)
-    (fn1 fn2 : Fn) (isig1 isig2 : Sg) (stack1 stack2 : List String) :
-    ∀ (its : List Item), (∀ it ∈ its, it.noLoad) → ∀ (s1 s1' s2 s2' : VisitSt),
-      visitItems m W1 (analyse m W1 fuel1) fn1 isig1 stack1 s1 its = .ok s1' →
-      visitItems m W2 (analyse m W2 fuel2) fn2 isig2 stack2 s2 its = .ok s2' →
-      s1.inters.length = s2.inters.length → s1.seen = s2.seen →
-      s1'.inters.map FIS.retSig = s2'.inters.map FIS.retSig →
-      SameShapeL s1.inters s2.inters → SameShapeL s1'.inters s2'.inters
-  | [], _, s1, s1', s2, s2', h1, h2, _, _, _, hsh => by
-    simp only [visitItems, Except.ok.injEq] at h1 h2
-    subst h1; subst h2; exact hsh
-  | it :: its, hnl, s1, s1', s2, s2', h1, h2, hlen, hseen, hfin, hsh => by
-    obtain ⟨t1, hv1, hr1⟩ := visitItems_cons_inv h1
-    obtain ⟨t2, hv2, hr2⟩ := visitItems_cons_inv h2
-    have hnl' : ∀ it ∈ its, it.noLoad := fun x hx => hnl x (mem_cons_of_mem _ hx)
-    have one : ∀ (a b : FIS), t1.inters = s1.inters ++ [a] → t2.inters = s2.inters ++ [b] → t1.seen = t2.seen →
-        (a.retSig = b.retSig → SameShape a b) → SameShapeL s1'.inters s2'.inters := by
-      intro a b i1 i2 hs' hab
-      have hsig := next_sig_eq i1 i2 hr1 hr2 hlen hfin
-      refine lockstep_shape U hSH hW1 hW2 fn1 fn2 isig1 isig2 stack1 stack2 its hnl' t1 s1' t2 s2' hr1 hr2
-        (by rw [i1, i2]; simp [hlen]) hs' hfin ?_
-      rw [i1, i2]
-      exact SameShapeL.append _ _ _ _ hsh ⟨hab hsig, trivial⟩
-    cases it with
-    | call f line =>
-      obtain ⟨g1, c1, n1, a, rf1, hc1, e1⟩ := plain_inv (by simpa [visitItem] using hv1)
-      obtain ⟨g2, c2, n2, b, rf2, hc2, e2⟩ := plain_inv (by simpa [visitItem] using hv2)
-      exact one a b (by rw [e1]) (by rw [e2]) (by rw [e1, e2]; exact hseen) (shape_callstep U hSH hW1 hW2 hc1 hc2)
-    | callArgs f args kwargs rtA rtK line =>
-      obtain ⟨g1, c1, n1, a, rf1, hc1, e1⟩ := plain_inv (by simpa [visitItem] using hv1)
-      obtain ⟨g2, c2, n2, b, rf2, hc2, e2⟩ := plain_inv (by simpa [visitItem] using hv2)
-      exact one a b (by rw [e1]) (by rw [e2]) (by rw [e1, e2]; exact hseen) (shape_callstep U hSH hW1 hW2 hc1 hc2)
-    | keep path f args kwargs rtA rtK line =>
-      obtain ⟨g1, c1, n1, a, rf1, hc1, _, e1⟩ := keep_inv hv1
-      obtain ⟨g2, c2, n2, b, rf2, hc2, _, e2⟩ := keep_inv hv2
-      exact one (a.withPath path) (b.withPath path) (by rw [e1]) (by rw [e2]) (by rw [e1, e2]; exact hseen)
-        (fun hs => SameShape.withPath a b path (shape_callstep U hSH hW1 hW2 hc1 hc2 hs))
-    | ref f line =>
-      rcases ref_inv hv1 with ⟨hin1, e1⟩ | ⟨hnot1, g1, c1, n1, a, rf1, hc1, e1⟩
-      · rcases ref_inv hv2 with ⟨_, e2⟩ | ⟨hnot2, _⟩
-        · rw [e1] at hr1; rw [e2] at hr2
-          exact lockstep_shape U hSH hW1 hW2 fn1 fn2 isig1 isig2 stack1 stack2 its hnl' s1 s1' s2 s2' hr1 hr2 hlen hseen hfin hsh
-        · exact absurd (hseen ▸ hin1) hnot2
-      · rcases ref_inv hv2 with ⟨hin2, _⟩ | ⟨_, g2, c2, n2, b, rf2, hc2, e2⟩
-        · exact absurd (hseen ▸ hin2) hnot1
-        · exact one a b (by rw [e1]) (by rw [e2]) (by rw [e1, e2]; simp [hseen]) (shape_callstep U hSH hW1 hW2 hc1 hc2)
-    | load path line => exact absurd (hnl _ mem_cons_self) (by simp [Item.noLoad])
-    | evalCall f line => exact absurd (hnl _ mem_cons_self) (by simp [Item.noLoad])
-
-/-- **the signature determines the shape of the interaction tree**: which calls below are kept, at which paths, with
-which signatures -/
-theorem sig_shape (U : Universe) (m : Nat) : ∀ fuel1, SH U m fuel1
-  | 0 => by
-    intro fuel2 W1 W2 refs1 refs2 stack1 stack2 fn1 fn2 ctx1 ctx2 fis1 fis2 r1 r2 _ _ _ _ h1
-    exact absurd h1 analyse_zero
-  | k1 + 1 => by
-    intro fuel2 W1 W2 refs1 refs2 stack1 stack2 fn1 fn2 ctx1 ctx2 fis1 fis2 r1 r2 hW1 hW2 hU1 hU2 h1 h2 hs
-    cases fuel2 with
-    | zero => exact absurd h2 analyse_zero
-    | succ k2 =>
-      obtain ⟨ev1, io1, st1, b1, d1, ret1, a1⟩ := analyse_inv h1
-      obtain ⟨ev2, io2, st2, b2, d2, ret2, a2⟩ := analyse_inv h2
-      obtain ⟨hcode, _, hsubs⟩ := sig_code U a1 a2 hU1 hU2 hs
-      have hitems : fn1.items = fn2.items := congrArg Code.items hcode
-      have hsp : fn1.storePath = fn2.storePath := congrArg Code.storePath hcode
-      have hv2 := a2.hvisit
-      rw [← hitems] at hv2
-      have hsh := lockstep_shape U (sig_shape U m k1) hW1 hW2 fn1 fn2 _ _ stack1 stack2 fn1.items (U.noLoads fn1 hU1)
-        _ st1 _ st2 a1.hvisit hv2 rfl rfl hsubs trivial
-      rw [a1.retSig, a2.retSig] at hs
-      rw [a1.hfis, a2.hfis]
-      simp only [SameShape]
-      exact ⟨hs, hsp, hsh⟩
 
 /-! ## Closed stores -/
 
@@ -219,7 +99,7 @@ theorem Closed.storeBlob {U : Universe} {m : Nat} {S : PStore} (hS : Closed U m 
     obtain ⟨n1, s1, p1, subs1, l1⟩ := fis
     obtain ⟨n2, s2, p2, subs2, l2⟩ := fis'
     simp only [SameShape] at hsh
-    exact CoveredL.mono hg _ (CoveredL.shape subs1 subs2 hsh.2.2 hc)
+    exact CoveredL.mono hg _ (CoveredL.shape subs1 subs2 hsh.2.2.2 hc)
   · have hold : (sgGet S.blobs k).isSome = true := by
       by_cases hn : S.noop = true
       · simpa [PStore.storeBlob, hn] using hk
@@ -326,7 +206,7 @@ theorem covered_node {bl : List (Sg × RVal)} {f : FIS} {sp : Option String}
 
 theorem cov_items (U : Universe) {m : Nat} {W : World} {paths : List (String × Sg)} {fuel : Nat}
     (hIH : CovFn U m W paths fuel) (hW : U.world W) (fn : Fn) (isig : Sg) (stack : List String) (env : Env) :
-    ∀ (its : List Item), (∀ it ∈ its, it.noLoad) → ∀ (s sfin : VisitSt) (results : List RVal) (xst : XSt),
+    ∀ (its : List Item), (∀ it ∈ its, ¬ it.isEval) → ∀ (s sfin : VisitSt) (results : List RVal) (xst : XSt),
       visitItems m W (analyse m W fuel) fn isig stack s its = .ok sfin →
       FIS.pathsOKL paths sfin.inters → SeenCov m W paths fuel s.seen →
       xst.store.noop = false → Closed U m xst.store → CoveredL xst.store.blobs s.inters →
@@ -341,7 +221,7 @@ theorem cov_items (U : Universe) {m : Nat} {W : World} {paths : List (String × 
   | it :: its, hnl, s, sfin, results, xst, hrest, hok, hseen, hn, hC, hcov => by
     obtain ⟨t, hv, hr⟩ := visitItems_cons_inv hrest
     rw [runItems_cons]
-    have hnl' : ∀ x ∈ its, x.noLoad := fun x hx => hnl x (mem_cons_of_mem _ hx)
+    have hnl' : ∀ x ∈ its, ¬ x.isEval := fun x hx => hnl x (mem_cons_of_mem _ hx)
     have claim : Closed U m (runItemRes W paths (runFn W paths fuel) env xst results it).2.store ∧
         BlobGrows xst.store (runItemRes W paths (runFn W paths fuel) env xst results it).2.store ∧
         (∀ v, (runItemRes W paths (runFn W paths fuel) env xst results it).1 = .ok v →
@@ -420,8 +300,13 @@ theorem cov_items (U : Universe) {m : Nat} {W : World} {paths : List (String × 
             rcases mem_cons.mp hf' with rfl | hf'
             · exact ⟨g, ⟨named, c⟩, fis, rf, s.refs, stack ++ [f'], hstep.find, hstep.sub, pathsOKL_mem hok hin⟩
             · exact hseen f' hf'
-      | load path l => exact absurd (hnl _ mem_cons_self) (by simp [Item.noLoad])
-      | evalCall f l => exact absurd (hnl _ mem_cons_self) (by simp [Item.noLoad])
+      | load path l =>
+        have e := load_inv hv
+        have hst : (runItemRes W paths (runFn W paths fuel) env xst results (.load path l)).2 = xst := by
+          simp only [runItemRes]; split <;> rfl
+        rw [hst, e]
+        exact ⟨hC, BlobGrows.refl _, fun _ _ => hcov, hseen⟩
+      | evalCall f l => exact absurd (by simp [Item.isEval]) (hnl _ mem_cons_self)
     obtain ⟨c1, c2, c3, c4⟩ := claim
     have hno := runItemRes_noop W paths (runFn W paths fuel) (runFn_noop W paths fuel) env xst results it
     cases hR : runItemRes W paths (runFn W paths fuel) env xst results it with
@@ -449,7 +334,7 @@ theorem cov_fn (U : Universe) (m : Nat) (W : World) (paths : List (String × Sg)
       have : fis.subs = sv.inters := by rw [a.hfis]; rfl
       rw [← this]; exact hsubs
     obtain ⟨r1, r2⟩ := runFn_succ W paths k st fn env
-    obtain ⟨c1, c2, c3⟩ := cov_items U (cov_fn U m W paths hW k) hW fn _ stack env fn.items (U.noLoads fn hU)
+    obtain ⟨c1, c2, c3⟩ := cov_items U (cov_fn U m W paths hW k) hW fn _ stack env fn.items (U.noEval fn hU)
       _ sv [] { st with log := st.log ++ [fn.name] } a.hvisit hsubs' (fun f hf => absurd hf (by simp)) hn hC trivial
     rw [r2]
     refine ⟨c1, c2, fun v hv => ?_⟩
@@ -729,11 +614,11 @@ end
 def HitFn (m : Nat) (W : World) (paths : List (String × Sg)) (fuel : Nat) : Prop :=
   ∀ (fn : Fn) (ctx : ArgCtx) (env : Env) (refs : Refs) (stack : List String) (fis : FIS) (r : Refs) (st : XSt),
     analyse m W fuel refs stack fn ctx = .ok (fis, r) → FIS.pathsOKL paths fis.subs →
-    CoveredL st.store.blobs fis.subs → (∀ it ∈ fn.items, it.noLoad) →
+    CoveredL st.store.blobs fis.subs → (∀ it ∈ fn.items, ¬ it.isEval) →
     (runFn W paths fuel st fn env).2.store = st.store
 
 theorem hit_call {m : Nat} {W : World} {paths : List (String × Sg)} {fuel : Nat} (hIH : HitFn m W paths fuel)
-    (hnl : ∀ f g, W.find f = some g → ∀ it ∈ g.items, it.noLoad)
+    (hnl : ∀ f g, W.find f = some g → ∀ it ∈ g.items, ¬ it.isEval)
     {f : String} {g : Fn} {ctx : ArgCtx} {refs : Refs} {stack : List String} {fis : FIS} {rf : Refs} {xst : XSt}
     (hfind : W.find f = some g) (ha : analyse m W fuel refs stack g ctx = .ok (fis, rf))
     (kp : Option String)
@@ -769,9 +654,9 @@ def SeenHit (m : Nat) (W : World) (paths : List (String × Sg)) (fuel : Nat) (bl
     W.find f = some g ∧ analyse m W fuel refs0 stack0 g ctx = .ok (fis, rf) ∧ FIS.pathsOK paths fis ∧ Covered bl fis
 
 theorem hit_items {m : Nat} {W : World} {paths : List (String × Sg)} {fuel : Nat} (hIH : HitFn m W paths fuel)
-    (hnlW : ∀ f g, W.find f = some g → ∀ it ∈ g.items, it.noLoad)
+    (hnlW : ∀ f g, W.find f = some g → ∀ it ∈ g.items, ¬ it.isEval)
     (fn : Fn) (isig : Sg) (stack : List String) (env : Env) :
-    ∀ (its : List Item), (∀ it ∈ its, it.noLoad) → ∀ (s sfin : VisitSt) (results : List RVal) (xst : XSt),
+    ∀ (its : List Item), (∀ it ∈ its, ¬ it.isEval) → ∀ (s sfin : VisitSt) (results : List RVal) (xst : XSt),
       visitItems m W (analyse m W fuel) fn isig stack s its = .ok sfin →
       FIS.pathsOKL paths sfin.inters → CoveredL xst.store.blobs sfin.inters →
       SeenHit m W paths fuel xst.store.blobs s.seen →
@@ -780,7 +665,7 @@ theorem hit_items {m : Nat} {W : World} {paths : List (String × Sg)} {fuel : Na
   | it :: its, hnl, s, sfin, results, xst, hrest, hok, hcov, hseen => by
     obtain ⟨t, hv, hr⟩ := visitItems_cons_inv hrest
     rw [runItems_cons]
-    have hnl' : ∀ x ∈ its, x.noLoad := fun x hx => hnl x (mem_cons_of_mem _ hx)
+    have hnl' : ∀ x ∈ its, ¬ x.isEval := fun x hx => hnl x (mem_cons_of_mem _ hx)
     have cov_mem : ∀ node, node ∈ sfin.inters → Covered xst.store.blobs node := by
       intro node hin
       have : ∀ (l : List FIS), CoveredL xst.store.blobs l → node ∈ l → Covered xst.store.blobs node := by
@@ -846,8 +731,13 @@ theorem hit_items {m : Nat} {W : World} {paths : List (String × Sg)} {fuel : Na
           rcases mem_cons.mp hf' with rfl | hf'
           · exact ⟨g, ⟨named, c⟩, fis, rf, s.refs, stack ++ [f'], hstep.find, hstep.sub, pathsOKL_mem hok hin, cov_mem fis hin⟩
           · exact hseen f' hf'
-      | load path l => exact absurd (hnl _ mem_cons_self) (by simp [Item.noLoad])
-      | evalCall f l => exact absurd (hnl _ mem_cons_self) (by simp [Item.noLoad])
+      | load path l =>
+        have e := load_inv hv
+        have hst : (runItemRes W paths (runFn W paths fuel) env xst results (.load path l)).2 = xst := by
+          simp only [runItemRes]; split <;> rfl
+        rw [hst, e]
+        exact ⟨rfl, hseen⟩
+      | evalCall f l => exact absurd (by simp [Item.isEval]) (hnl _ mem_cons_self)
     obtain ⟨c1, c2⟩ := claim
     cases hR : runItemRes W paths (runFn W paths fuel) env xst results it with
     | mk rv xst' =>
@@ -862,7 +752,7 @@ theorem hit_items {m : Nat} {W : World} {paths : List (String × Sg)} {fuel : Na
 
 /-- **when every kept call of the tree is in the store, running the function writes nothing** -/
 theorem hit_fn (m : Nat) (W : World) (paths : List (String × Sg))
-    (hnlW : ∀ f g, W.find f = some g → ∀ it ∈ g.items, it.noLoad) : ∀ fuel, HitFn m W paths fuel
+    (hnlW : ∀ f g, W.find f = some g → ∀ it ∈ g.items, ¬ it.isEval) : ∀ fuel, HitFn m W paths fuel
   | 0 => by
     intro fn ctx env refs stack fis r st ha
     exact absurd ha analyse_zero
@@ -892,9 +782,9 @@ theorem covered_eval_writes_nothing (U : Universe) (m : Nat) (W : World) (S : PS
     | some w => simp only; split <;> simp [sync_blobs]
     | none =>
       simp only
-      have hnl : ∀ f g, W.find f = some g → ∀ it ∈ g.items, it.noLoad := fun f g hf => U.noLoads g (U.find hW hf)
+      have hnl : ∀ f g, W.find f = some g → ∀ it ∈ g.items, ¬ it.isEval := fun f g hf => U.noEval g (U.find hW hf)
       have hst := hit_fn m W paths hnl W.fuel fn ⟨named, none⟩ env refs0 [] fis r { store := S } P.hana k2 c2
-        (U.noLoads fn (U.find hW P.hfind))
+        (U.noEval fn (U.find hW P.hfind))
       cases hr : runFn W paths W.fuel { store := S } fn env with
       | mk rv st =>
         rw [hr] at hst
@@ -933,7 +823,7 @@ theorem reeval_writes_nothing (U : Universe) (m : Nat) (W W' : World) (S : PStor
     obtain ⟨n1, s1, p1, subs1, l1⟩ := fa
     obtain ⟨n2, s2, p2, subs2, l2⟩ := fb
     simp only [SameShape] at hsh
-    exact hsh.2.2
+    exact hsh.2.2.2
   obtain ⟨c1, c2⟩ := (covered_iff _ _).mp hcov
   refine covered_eval_writes_nothing U m W' _ rq' hW' ha' ((covered_iff _ _).mpr ⟨?_, ?_⟩)
   · rw [hsp, hsig]; exact c1
